@@ -1,17 +1,17 @@
 #!/bin/sh
 # process_seeds2.sh <Cxx> : as process_seeds.sh, for the second round (worktree /tmp/mut/<Cxx>b, kept as seeded/<Cxx>-b<k>)
 P=$1
-export MUT_SUFFIX=b
+S=${SEED_SUFFIX:-b}; export MUT_SUFFIX=$S
 mkdir -p /tmp/seedlogs
 for k in 1 2 3; do
-  [ -f /tmp/mut/${P}b.out/$k/patch.diff ] || continue
-  python3 /verif/tools/confirm_mutation.py $P $k > /tmp/seedlogs/$P-b$k.confirm 2>&1
-  if grep -q '"confirmed": true' /tmp/seedlogs/$P-b$k.confirm; then
-    flock /tmp/seedlogs/.lock python3 /verif/tools/mutrun.py $P /verif/seeded/$P-b$k/patch.diff --tier quick > /tmp/seedlogs/$P-b$k.quick 2>&1
-    grep -E "VIOLATION|^OK|EXIT" /tmp/seedlogs/$P-b$k.quick | grep -v "Lean library does not build" | cut -c1-400 | head -8 > /verif/seeded/$P-b$k/check_quick.txt
-    echo "$P-b$k confirmed quick: $(grep -c VIOLATION /tmp/seedlogs/$P-b$k.quick) violations, $(grep EXIT /tmp/seedlogs/$P-b$k.quick)" >> /tmp/seedlogs/summary
+  [ -f /tmp/mut/${P}${S}.out/$k/patch.diff ] || continue
+  python3 /verif/tools/confirm_mutation.py $P $k > /tmp/seedlogs/$P-$S$k.confirm 2>&1
+  if grep -q '"confirmed": true' /tmp/seedlogs/$P-$S$k.confirm; then
+    flock /tmp/seedlogs/.lock python3 /verif/tools/mutrun.py $P /verif/seeded/$P-$S$k/patch.diff --tier quick > /tmp/seedlogs/$P-$S$k.quick 2>&1
+    grep -E "VIOLATION|^OK|EXIT" /tmp/seedlogs/$P-$S$k.quick | grep -v "Lean library does not build" | cut -c1-400 | head -8 > /verif/seeded/$P-$S$k/check_quick.txt
+    echo "$P-$S$k confirmed quick: $(grep -c VIOLATION /tmp/seedlogs/$P-$S$k.quick) violations, $(grep EXIT /tmp/seedlogs/$P-$S$k.quick)" >> /tmp/seedlogs/summary
   else
-    echo "$P-b$k NOT confirmed" >> /tmp/seedlogs/summary
+    echo "$P-$S$k NOT confirmed" >> /tmp/seedlogs/summary
   fi
 done
-python3 /verif/tools/mut_setup.py ${P}b --remove >> /tmp/seedlogs/summary 2>&1
+python3 /verif/tools/mut_setup.py ${P}${S} --remove >> /tmp/seedlogs/summary 2>&1
